@@ -363,8 +363,9 @@ def do_unit(unit, ucfg, repo, wdir, tier, prop):
     canaries = [r for r in regions if r["kind"] == "region" and r["name"].startswith("mustfail_")]
     hit = set(f["region"] for f in fails if f["region"] and f["region"].startswith("mustfail_"))
     fails = [f for f in fails if not (f["region"] or "").startswith("mustfail_")]
+    compiled = not any(not str(x.get("message", "")).startswith(("function body check", "while loop", "for loop", "loop")) for x in und)
     for c in canaries:
-        if c["name"] not in hit and c.get("mode") != "assume":
+        if c["name"] not in hit and c.get("mode") != "assume" and compiled:   # (a unit that did not compile checked no canary)
             und.append({"message": "vacuity canary %s was PROVED: hypotheses/axioms are contradictory" % c["name"]})
     R["canaries"] = {"expected_to_fail": [c["name"] for c in canaries], "failed_as_expected": sorted(hit)}
     # confirmation re-runs.  A failed obligation is reported only if the function fails AGAIN when verified on its own
